@@ -745,6 +745,13 @@ def run_icp(pp, torch, srcs, tgts, shape, steps, patience, init, share_target):
         return out
     stepper = pp.utils.ReduceToBason(steps=steps, patience=patience, verbose=False)
     icp = pp.module.ICP(init=None, stepper=stepper)
+    # the judged call is the SECOND call on this object: the first one registers another pair from an explicit, far
+    # initial transform; nothing of it (its init, its stepper state) may carry over into the judged call
+    try:
+        far = pp.SE3(torch.tensor([3.0, -2.0, 1.5, 0.5, 0.5, 0.5, 0.5], dtype=torch.float64))
+        icp(S + 0.25, T, init=far)
+    except Exception:      # noqa  (only the judged call matters)
+        pass
     icpmod.knn, icpmod.svdtf = rknn, rsvdtf
     try:
         with record_svd(torch, slog):
